@@ -224,7 +224,7 @@ def receivers(ctx, db, rid='C01.claim-guards'):
 
 def dtor_and_assign(ctx, db, rid='C01.dtor-resolves'):
     rid = ctx.rule(rid, 'COUNT+ORDER', '~promise resolves the future exactly once when the owner pointer is non-null and not otherwise; '
-                   'move-assignment drops the overwritten promise before it takes the new owner', floor=2)
+                   'move-assignment drops the overwritten promise before it takes the new owner, and only self-assignment leaves the target untouched', floor=2)
     for f, trs in traces_of(db, 'cocls::promise::~promise', depth=0, per_instance=True):
         trs = [t for t in trs if live(t)]
         ctx.paths(rid, len(trs))
@@ -252,13 +252,23 @@ def dtor_and_assign(ctx, db, rid='C01.dtor-resolves'):
         for tr in trs:
             wi = index_of(tr, lambda ev: ev.k == 'call' and atomic.is_atomic_call(ev) and norm(ev.get('field')) == OWNER and atomic.opname(ev) in ('operator=', 'store', 'exchange'))
             if wi < 0:
+                # the only assignment that may leave the target as it is is self-assignment: assigning an empty promise must still drop what the
+                # target held (p = {} is how a promise is given up; its future would stay pending for ever)
+                self_ = False
+                for it in tr:
+                    if it.k == 'branch':
+                        m_ = re.fullmatch(r'\((this|&\(param:\w+\)) (==|!=) (this|&\(param:\w+\))\)', it.path or '')
+                        if m_ and m_.group(1) != m_.group(3) and (m_.group(2) == '==') == bool(it.val):
+                            self_ = True
+                if not self_:
+                    bad = bad or 'a move assignment that is not a self-assignment leaves the target untouched: the promise it held is neither dropped nor replaced'
                 continue
             n += 1
             di = index_of(tr, lambda ev: ev.k == 'call' and norm(ev.get('callee')) in ('cocls::promise::set_value', 'cocls::promise::operator()') and ev.get('recv') == 'this')
             if di < 0 or di > wi:
-                bad = 'the owner pointer is overwritten without dropping the promise it held'
+                bad = bad or 'the owner pointer is overwritten without dropping the promise it held'
         if n == 0:
-            bad = 'move-assignment never takes the new owner'
+            bad = bad or 'move-assignment never takes the new owner'
         ctx.ob(rid, f, f['key'], bad is None, 'operator=(promise&&): set_value(drop) precedes the store of the new owner' + ('' if not bad else ' -- ' + bad), desc=bad)
 
 
@@ -358,12 +368,26 @@ def no_value(ctx, db):
 TAG_OF_MEMBER = {'_value': 'value', '_ptr_value': 'value_ref', '_exception': 'exception'}
 
 
+def _inside(tr, item, fname):
+    """is `item` of the trace between the enter and the leave marker of an expanded call of fname"""
+    open_ = []
+    for it in tr:
+        if it is item:
+            return bool(open_)
+        if it.k == 'enter' and norm(it.ev.get('callee') or '') == fname:
+            open_.append(it.ev.id)
+        elif it.k == 'leave' and open_ and it.ev.id == open_[-1]:
+            open_.pop()
+    return False
+
+
 def state_tag_agrees(ctx, db, rid='C01.state-tag-agrees'):
     """the future's payload is a tagged union: writers and readers must agree on which member belongs to which tag"""
     rid = ctx.rule(rid, 'SIBLINGS', 'the future\'s payload union is used consistently with its state tag in every instantiation: each set/set_ref overload constructs or assigns '
                    'one union member and then stores exactly the tag of that member (value / value_ref / exception) as its last write; the destructor destroys, and value() reads, '
                    'the member that belongs to the switch arm they are in', floor=4)
     T = Tracer(db, depth=0)
+    Ts = htracer(db)          # set / set_ref: a payload constructed through a small helper of the class counts
     seen = set()
     if not db.fns('cocls::future::set_ref') and any('&>' in (c.get('inst') or '').replace(' ', '') for c in db.class_insts('cocls::future')):
         # future<T&> is instantiated but nothing instantiates set_ref any more: the reference form of set no longer goes through it
@@ -375,20 +399,26 @@ def state_tag_agrees(ctx, db, rid='C01.state-tag-agrees'):
         for f in db.need(name):
             inst_void = f.get('class_inst', '').startswith('cocls::future<void>')
             bad = None
-            for tr in [t for t in T.traces(f) if live(t)]:
-                members = []
+            for tr in [t for t in Ts.traces(f) if live(t)]:
+                members = []; built = []
+                sub = [c for c in calls(tr) if norm(c.get('callee')) in ('cocls::future::set_ref',)]
+                if sub and name.endswith('::set'):
+                    # reference future: set() delegates to set_ref(), which is judged as a function of its own
+                    tr = [it for it in tr if not _inside(tr, it, 'cocls::future::set_ref')]
                 for it in tr:
                     m = None
                     if it.k == 'new' and it.get('placement'):
                         m = re.search(r'\._(value|ptr_value|exception)\b', it['placement'][0].get('path') or '')
                     elif it.k == 'write':
                         m = re.search(r'\._(value|ptr_value|exception)$', it.get('path') or '')
+                    elif it.k == 'call' and norm(it.get('callee') or '') == 'std::construct_at' and it.get('args'):
+                        m = re.search(r'(\.|->)_(value|ptr_value|exception)\b', it['args'][0].get('path') or '')
+                        m = m and re.match(r'()(.*)', m.group(2))
                     if m:
-                        members.append('_' + m.group(1))
+                        members.append('_' + (m.group(2) if m.re.groups == 2 else m.group(1))); built.append(it)
                 tags = [it for it in tr if it.k == 'write' and (it.get('path') or '') == 'this->_state']
-                sub = [c for c in calls(tr) if norm(c.get('callee')) in ('cocls::future::set_ref',)]
                 if sub and not tags and not members:
-                    continue          # reference future: set() delegates to set_ref()
+                    continue
                 if len(tags) != 1:
                     bad = bad or 'the state tag is written %d times' % len(tags); continue
                 tag = (tags[0].get('rhs') or '').split('::')[-1]
@@ -400,7 +430,7 @@ def state_tag_agrees(ctx, db, rid='C01.state-tag-agrees'):
                     bad = bad or 'member %s is stored but the tag says %s: readers will interpret the bytes as another type' % (members[0], tag)
                 elif not members and not (inst_void and tag == 'value'):
                     bad = bad or 'the tag %s is set without a payload member having been written' % tag
-                if tags and tr.index(tags[0]) < max([i for i, it in enumerate(tr) if it.k in ('new',) and it is not tags[0] and re.search(r'\._(value|ptr_value|exception)', (it.get('path') or '') + str((it.get('placement') or [{}])[0].get('path') if it.get('placement') else ''))] or [-1]):
+                if tags and pos(tr, tags[0]) < max([pos(tr, it) for it in built if it.k in ('new', 'call')] or [-1]):
                     bad = bad or 'the tag is stored before the payload is constructed (an exception thrown by the value constructor would leave a tag without payload)'
             k = (f['key'], bad)
             if k in seen:
@@ -489,6 +519,9 @@ def has_value_agrees(ctx, db, rid='C01.has-value-agrees'):
                 hv = [c for c in calls(tr) if norm(c.get('callee')) == 'cocls::future::has_value']
                 cv = [c for c in calls(tr) if norm(c.get('callee')) == 'cocls::future::awaitable_bool::operator bool']
                 st = [it for it in tr if it.k == 'read' and (it.get('path') or '').endswith('_state')]
+                ob_ = [c for c in calls(tr) if norm(c.get('callee')) == 'cocls::future::operator bool' and c.get('recv') in ('this', '*this')]
+                if name.endswith('operator!') and len(ob_) == 1 and not hv and not cv and not st:
+                    continue          # negation of the future's own bool conversion, which is judged as a sibling of its own
                 if len(hv) != 1 or len(cv) != 1 or st:
                     bad = bad or ('%s does not answer through has_value() (%s)' % (name.split('::')[-1], 'reads the state tag directly: a pending future is reported as having no value' if st else 'has_value %d, waiting conversion %d' % (len(hv), len(cv))), tr)
             ctx.ob(rid, f, f['key'], bad is None and len(trs) > 0, '%s waits and answers through has_value()' % name.split('::')[-1] + ('' if not bad else ' -- ' + bad[0]), desc=bad[0] if bad else None)
